@@ -22,7 +22,8 @@ def is_one_of(x, candidates):
 
 
 def _effects(resolver, file_info):
-    grow_list(resolver.scopes, "scope_opened_by_the_callee")
+    added = grow_list(resolver.scopes, "scope_opened_by_the_callee")
+    ghost("callee_scopes", ghost_get("callee_scopes") + added)
     resolver.last_used_scope = len(resolver.scopes) - 1
     outcome = fresh_int("outcome")
     if outcome <= 0:
@@ -53,3 +54,16 @@ def code_gen_model(ast_nodes, resolver, macro_definitions):
     ghost("last_expansion_bindings", dict(resolver.current_scope.symbols))  # the names bound WHILE the sub-tree is expanded
     ghost("n_expansions", ghost_get("n_expansions") + 1)
     return _effects(resolver, None)
+
+
+# the two nodes that replay scopes BY POSITION in the later passes: their constructors are counted (ghost) so that the harnesses can state
+# "every scope a generator opens itself is announced by exactly one ScopeNode and closed by exactly one PopScopeNode"
+def scope_node_init_model(self, resolver):
+    self.resolver = resolver
+    self.parent_scope = resolver.current_scope
+    ghost("scope_nodes", ghost_get("scope_nodes") + 1)
+
+
+def pop_scope_node_init_model(self, resolver):
+    self.resolver = resolver
+    ghost("pop_nodes", ghost_get("pop_nodes") + 1)
